@@ -664,9 +664,9 @@ func init() {
 		Assumptions: []string{"approximate kinds (hnsw, partial-probe ivf/ivfpq) are judged for soundness only here; completeness is C12/C13/C14", "ties unspecified; float tolerance 1e-5 relative", "hnsw level of each insert enumerated in {0,1} with at most one non-zero level per history"},
 		Shards: func(tier string) []vShard {
 			var sh []vShard
-			depth, nids := 3, 3
+			depth, nids := 4, 3
 			if tier == "thorough" {
-				depth = 4
+				depth = 5
 			}
 			for _, cfg := range vC02Configs(tier) {
 				cfg := cfg
